@@ -34,6 +34,8 @@ func (s Setting) pkgMTime() time.Time {
 		return PkgMTime.Add(750 * time.Millisecond)
 	case "G":
 		return PkgMTime.Add(500 * time.Millisecond)
+	case "Y1960", "Y1970", "Y2040", "Y2110":
+		return fixture.TimeOf["epochs/y"+s.MTime[1:]+".txt"]
 	}
 	return PkgMTime
 }
@@ -100,6 +102,9 @@ type C01Case struct {
 	// written as Spelling, relative to it (List[0].Src names the same files for the reference planner)
 	Cwd      string `json:"cwd,omitempty"`
 	Spelling string `json:"spelling,omitempty"`
+	// MayFail: the configuration holds times that a format's fields may be unable to hold - refusing to build is
+	// accepted; a package that is built is judged like any other
+	MayFail bool `json:"may_fail,omitempty"`
 }
 
 // c01Templates is the content-entry alphabet (simplest first). Σc′ = the first nQuick.
@@ -255,6 +260,27 @@ func init() {
 				}
 				if !yield(C01Case{Setting: s, List: fr}) {
 					return
+				}
+			}
+			// times outside the usual years - before the epoch, exactly the epoch, beyond 2^31 and beyond 2^32 seconds - on
+			// disk, configured for the package, configured for an entry. A format whose fields cannot hold such a time may
+			// refuse to build; a package that is built states the time
+			for _, y := range []string{"1960", "1970", "2040", "2110"} {
+				yt := fixture.TimeOf["epochs/y"+y+".txt"]
+				src := model.Entry{Src: "epochs/y" + y + ".txt", Dst: "/opt/epochs/on-disk.txt"}
+				for _, sc := range []struct {
+					s Setting
+					l []model.Entry
+				}{
+					{Setting{Name: "mtime=unset", MTime: "unset"}, []model.Entry{src}},
+					{Setting{Name: "mtime=unset", MTime: "unset"}, []model.Entry{{Src: "epochs", Dst: "/opt/epochs", Type: "tree"}}},
+					{Setting{Name: "mtime=Y" + y, MTime: "Y" + y}, []model.Entry{{Src: "etc/app.conf", Dst: "/etc/app.conf", Type: "config"}, {Dst: "/var/lib/app", Type: "dir"}, {Src: "/t", Dst: "/usr/bin/l", Type: "symlink"}}},
+					{sets[0], []model.Entry{{Src: "etc/app.conf", Dst: "/etc/app.conf", MTime: yt}}},
+					{sets[0], []model.Entry{{Dst: "/var/lib/app", Type: "dir", MTime: yt}, {Src: "/t", Dst: "/usr/bin/l", Type: "symlink", MTime: yt}, {Dst: "/var/log/g", Type: "ghost", MTime: yt}}},
+				} {
+					if !yield(C01Case{Setting: sc.s, List: sc.l, MayFail: true}) {
+						return
+					}
 				}
 			}
 			// file sizes on block, buffer and streaming-threshold boundaries, under every setting (compressors included)
@@ -519,6 +545,10 @@ func checkC01(env *engine.Env, ci any) engine.Outcome {
 			if err == nil {
 				viol("payload:invalid-accepted:"+f, "reference rejects the list (%s%s) but a package was built", want.Why, want.OtherErr)
 			}
+			continue
+		}
+		if err != nil && c.MayFail {
+			keys = append(keys, f+":refused")
 			continue
 		}
 		if err != nil {
